@@ -1,0 +1,36 @@
+//go:build verif
+
+package redisemu
+
+import (
+	"strconv"
+	"sync/atomic"
+)
+
+// VerifHook is the callback type installed by verification tooling. It is
+// invoked synchronously on the goroutine that reached the point, so the
+// callback may pause, delay or terminate that goroutine's progress.
+type VerifHook func(point string, id int64, detail string)
+
+var verifHook atomic.Pointer[VerifHook]
+
+// VerifSetHook installs (or, with nil, removes) the process-wide callback.
+func VerifSetHook(h VerifHook) {
+	if h == nil {
+		verifHook.Store(nil)
+		return
+	}
+	verifHook.Store(&h)
+}
+
+func verifPoint(point string, id int64, detail string) {
+	if h := verifHook.Load(); h != nil {
+		(*h)(point, id, detail)
+	}
+}
+
+func verifPointN(point string, id int64, n1, n2 int) {
+	if h := verifHook.Load(); h != nil {
+		(*h)(point, id, strconv.Itoa(n1)+"/"+strconv.Itoa(n2))
+	}
+}
